@@ -19,6 +19,19 @@ Decided (who-may-read + path enumeration with scenario-decided atoms over Http1C
         not (decision table) so the next pipelined request is parsed only after the current flow finished.
 NOT decided: equality of outcomes over all splits (needs execution); h11's ReceiveBuffer / readers are trusted to be
 incremental. Resetting self.request/self.response on keep-alive is not demanded (not a segmentation question).
+
+How the code is read (semantics, not shape):
+  * every rule works on the traces of the path engine over the rule's alphabet (buffer consumers, body reader, yields of
+    commands/events other than Log, writes to attributes of the connection that are read somewhere, re-dispatches);
+    `if`/`match`/early return/De Morgan/temporaries are the engine's business;
+  * private helper methods (`self._x(...)`, also overridden per subclass = fork on the concrete class) and module helpers that
+    receive the buffer or the event are inlined, with their exception edges; the anchors themselves (state functions,
+    _handle_event, send, mark_done, make_pipe) are not;
+  * all matching is value based: the buffer, the body reader, the event, the segment bytes, the extracted head are recognised
+    through local aliases, helper parameters and `match` captures; a boolean temporary holding one atom decides like the atom;
+  * the segment bytes may flow (directly, through a local, a capture or a helper parameter) only into `self.buf += ...` and
+    into logger calls; writes to attributes that nothing reads (counters), logger calls, assertions, annotations, docstrings
+    and `yield commands.Log(...)` are outside the alphabet.
 """
 
 from __future__ import annotations
@@ -28,21 +41,23 @@ import ast
 from ..core import AnalysisError
 from ..core import norm
 from ..model import attr_chain
+from ..model import enclosing_func
 from ..model import eval_order
 from ..model import last_attr
 from ..model import walk_in_order
 from ..paths import C
+from ..paths import is_const
+from ..paths import R
+from ..paths import UNKNOWN
 from ..selftest import Mutant
 from ._helpers_A import ASpec
 from ._helpers_A import compare_pair
-from ._helpers_A import is_self_call
-from ._helpers_A import isinstance_of
-from ._helpers_A import method_call_on
+from ._helpers_A import isinstance_names
 from ._helpers_A import params_of
 from ._helpers_A import proj
 from ._helpers_A import run_block
 from ._helpers_A import show
-from ._helpers_A import truthiness_atom
+from ._helpers_A import truthiness_of
 
 PROP = "C02"
 REG = {
@@ -56,69 +71,522 @@ REG = {
 }
 
 F = "mitmproxy/proxy/layers/http/_http1.py"
+BASE = "Http1Connection"
 CLASSES = ("Http1Connection", "Http1Server", "Http1Client")
 HEAD = ("head",)
 BUFV = ("bufbytes",)
+BUFLEN = ("buflen",)
+SEG = ("segment",)
+H11 = ("h11ev",)
+RBUF = R("self.buf")
+RREADER = R("self.body_reader")
+LOG_METHODS = {"debug", "info", "warning", "warn", "error", "exception", "critical", "log"}
+# methods that are anchors of the rules: analysed on their own, never inlined into a caller
+ANCHORS = {"_handle_event", "send", "mark_done", "make_pipe", "start", "__init__"}
 
 
 def _state_targets(ctx):
     """Names of methods that are ever bound to ``self.state`` / class attribute ``state`` in the module."""
     out = set()
     mod = ctx.model.module(F)
+
+    def add(v, where):
+        if isinstance(v, ast.IfExp):
+            add(v.body, where)
+            add(v.orelse, where)
+            return
+        ch = attr_chain(v)
+        if ch == "self.state":
+            return  # `self.state = x if c else self.state`
+        ctx.require(ch.startswith("self.") and ch.count(".") == 1, f"self.state is bound to something that is not a method: {norm(where)}")
+        out.add(ch[5:])
+
     for n in ast.walk(mod.tree):
-        if isinstance(n, ast.Assign):
-            for t in n.targets:
+        if isinstance(n, (ast.Assign, ast.AnnAssign)) and n.value is not None:
+            for t in n.targets if isinstance(n, ast.Assign) else [n.target]:
                 if attr_chain(t) == "self.state":
-                    ch = attr_chain(n.value)
-                    ctx.require(ch.startswith("self.") and ch.count(".") == 1, f"self.state is bound to something that is not a method: {norm(n)}")
-                    out.add(ch[5:])
+                    add(n.value, n)
                 elif isinstance(t, ast.Name) and t.id == "state" and isinstance(getattr(n, "_parent", None), ast.ClassDef):
                     ctx.require(isinstance(n.value, ast.Name), f"class attribute state is not a method name: {norm(n)}")
                     out.add(n.value.id)
     return out
 
 
-def _spec(ev, scenario, unroll=2, tracked=()):
+# ---------------------------------------------------------------------------------------------------------------------
+# program facts shared by the rules
+
+
+def is_log_call(n) -> bool:
+    """`logger.debug(...)`, `logging.info(...)`, `self.log.warning(...)` ... (the stdlib logging API; not `commands.Log`)."""
+    if not (isinstance(n, ast.Call) and isinstance(n.func, ast.Attribute) and n.func.attr in LOG_METHODS):
+        return False
+    base = attr_chain(n.func.value)
+    if not base and isinstance(n.func.value, ast.Call):  # logging.getLogger(__name__).debug(...)
+        base = attr_chain(n.func.value.func)
+    return "log" in base.rsplit(".", 1)[-1].lower() or base.split(".", 1)[0] == "logging"
+
+
+def _in_log_call(node) -> bool:
+    n = getattr(node, "_parent", None)
+    while n is not None and not isinstance(n, ast.stmt):
+        if is_log_call(n):
+            return True
+        n = getattr(n, "_parent", None)
+    return False
+
+
+class _Program:
+    """Classes / helpers of _http1.py, call resolution, attributes nobody reads."""
+
+    def __init__(self, ctx, targets):
+        m = ctx.model
+        self.mod = m.module(F)
+        self.classes = {c: m.cls(F, c) for c in CLASSES}
+        subs = sorted(n.name for n in self.mod.tree.body if isinstance(n, ast.ClassDef) and BASE in [last_attr(b) for b in n.bases])
+        ctx.require(subs == ["Http1Client", "Http1Server"], f"concrete HTTP/1 connection classes changed: {subs}")
+        self.modfuncs = {n.name: n for n in self.mod.tree.body if isinstance(n, ast.FunctionDef)}
+        self.targets = set(targets)
+        self.boundary = self.targets | ANCHORS
+        self._synth = {}
+        # attributes of self that are never read (except by logger calls or to compute their own next value): writes to them
+        # cannot influence what the connection does, they are not part of any rule's alphabet (counters, timestamps for logging)
+        read = set()
+        written = set()
+        for cls in self.classes.values():
+            for n in ast.walk(cls):
+                if isinstance(n, ast.Attribute) and isinstance(n.value, ast.Name) and n.value.id == "self":
+                    if isinstance(n.ctx, ast.Load):
+                        if _in_log_call(n) or self._feeds_itself(n):
+                            continue
+                        read.add(n.attr)
+                    else:
+                        written.add(n.attr)
+        declared = {st.target.id for st in self.classes[BASE].body if isinstance(st, ast.AnnAssign) and isinstance(st.target, ast.Name)}
+        self.inert = written - read - declared
+
+    @staticmethod
+    def _feeds_itself(n) -> bool:
+        st = n
+        while st is not None and not isinstance(st, ast.stmt):
+            st = getattr(st, "_parent", None)
+        if isinstance(st, ast.Assign) and len(st.targets) == 1 and attr_chain(st.targets[0]) == "self." + n.attr:
+            return True
+        return isinstance(st, ast.AugAssign) and attr_chain(st.target) == "self." + n.attr
+
+    def own(self, cls, name):
+        for st in self.classes[cls].body:
+            if isinstance(st, ast.FunctionDef) and st.name == name:
+                return st
+        return None
+
+    def lookup(self, cls, name):
+        """FunctionDef run by ``self.<name>()`` when self is an instance of ``cls`` (within this module)."""
+        return self.own(cls, name) or (self.own(BASE, name) if cls != BASE else None)
+
+    @staticmethod
+    def _plain(fn) -> bool:
+        return fn is not None and not fn.decorator_list and fn.args.vararg is None and fn.args.kwarg is None
+
+    def method(self, cls, name):
+        """Body to inline for ``self.<name>(...)`` seen in a method of ``cls``; in the abstract base the concrete class is not known:
+        a helper that differs between the two concrete classes becomes `if isinstance(self, Http1Server): <server's> else: <client's>`."""
+        if name in self.boundary:
+            return None
+        if cls != BASE:
+            fn = self.lookup(cls, name)
+            return fn if self._plain(fn) else None
+        a, b = self.lookup("Http1Server", name), self.lookup("Http1Client", name)
+        if a is b:
+            return a if self._plain(a) else None
+        if not (self._plain(a) and self._plain(b)) or ast.dump(a.args) != ast.dump(b.args):
+            return None
+        key = (id(a), id(b))
+        if key not in self._synth:
+            test = ast.Call(func=ast.Name(id="isinstance", ctx=ast.Load()), args=[ast.Name(id="self", ctx=ast.Load()), ast.Name(id="Http1Server", ctx=ast.Load())], keywords=[])
+            branch = ast.If(test=test, body=list(a.body), orelse=list(b.body))
+            fn = ast.FunctionDef(name=name, args=a.args, body=[branch], decorator_list=[], returns=None, type_comment=None)
+            fn.type_params = []
+            for n in (fn, branch, test, test.func, *test.args):
+                ast.copy_location(n, a)
+            self._synth[key] = fn
+        return self._synth[key]
+
+    def callee(self, call, cls):
+        """(FunctionDef, is_method) for a call to a private helper method / module function of this file, else None."""
+        f = call.func
+        if isinstance(f, ast.Attribute) and isinstance(f.value, ast.Name) and f.value.id == "self":
+            fn = self.method(cls, f.attr)
+            return (fn, True) if fn is not None else None
+        if isinstance(f, ast.Name) and self._plain(self.modfuncs.get(f.id)):
+            return self.modfuncs[f.id], False
+        return None
+
+
+def _bind_arg(call, fn, arg_node):
+    """Name of the parameter of ``fn`` that receives ``arg_node`` (an argument expression of ``call``), or None."""
+    ps = params_of(fn)
+    kwonly = {a.arg for a in fn.args.kwonlyargs}
+    pos = [p for p in ps if p not in kwonly]
+    for i, a in enumerate(call.args):
+        if a is arg_node:
+            return pos[i] if i < len(pos) and not isinstance(a, ast.Starred) else None
+    for k in call.keywords:
+        if k.value is arg_node:
+            return k.arg if k.arg in ps else None
+    return None
+
+
+def _stores(fn, name) -> int:
+    n = sum(1 for x in ast.walk(fn) if isinstance(x, ast.Name) and x.id == name and not isinstance(x.ctx, ast.Load))
+    n += sum(1 for x in ast.walk(fn) if isinstance(x, (ast.MatchAs, ast.MatchStar)) and x.name == name)
+    n += sum(1 for x in ast.walk(fn) if isinstance(x, ast.ExceptHandler) and x.name == name)
+    return n
+
+
+class _SegmentFlow:
+    """R02.1 as dataflow: where may the bytes of the received segment go?"""
+
+    def __init__(self, ctx, prog):
+        self.ctx = ctx
+        self.prog = prog
+        self.seg_names: dict[int, set] = {}  # id(FunctionDef) -> locals that hold the segment bytes and only feed `self.buf += ...`
+
+    # -- the event and its aliases
+    @staticmethod
+    def aliases(fn, p):
+        al = {p}
+        changed = True
+        while changed:
+            changed = False
+            for n in ast.walk(fn):
+                if isinstance(n, ast.Assign) and isinstance(n.value, ast.Name) and n.value.id in al:
+                    for t in n.targets:
+                        if isinstance(t, ast.Name) and t.id not in al:
+                            al.add(t.id)
+                            changed = True
+                elif isinstance(n, ast.MatchAs) and n.name and n.name not in al:
+                    # `match event: case DataReceived() as e` names the event again
+                    mt = n
+                    while mt is not None and not isinstance(mt, ast.Match):
+                        mt = getattr(mt, "_parent", None)
+                    if mt is not None and isinstance(mt.subject, ast.Name) and mt.subject.id in al and isinstance(getattr(n, "_parent", None), ast.match_case):
+                        al.add(n.name)
+                        changed = True
+        return al
+
+    def closure(self, roots):
+        """{(id(fn), param): (fn, cls, param, kinds)} of functions that receive the connection event, starting at the state functions."""
+        out = {}
+        work = list(roots)
+        while work:
+            fn, cls, p, kind = work.pop()
+            key = (id(fn), p)
+            if key in out:
+                if kind in out[key][3]:
+                    continue
+                out[key][3].add(kind)
+            else:
+                out[key] = (fn, cls, p, {kind})
+            al = self.aliases(fn, p)
+            for n in ast.walk(fn):
+                if not isinstance(n, ast.Call) or is_log_call(n):
+                    continue
+                for a in list(n.args) + [k.value for k in n.keywords]:
+                    if isinstance(a, ast.Name) and a.id in al:
+                        if isinstance(n.func, ast.Attribute) and isinstance(n.func.value, ast.Name) and n.func.value.id == "self" and (n.func.attr in self.prog.boundary or n.func.attr == "state"):
+                            continue  # state functions are roots themselves; send() receives HttpEvents, not connection events
+                        c = self.prog.callee(n, cls)
+                        if c is None:
+                            continue
+                        q = _bind_arg(n, c[0], a)
+                        if q is not None:
+                            work.append((c[0], cls, q, kind))
+        return out
+
+    # -- reads of the segment
+    def reads(self, fn, p):
+        """[(node, how)]: how = 'attr' for `<event>.data`, ('capture', name) / 'pattern' for a `data` sub-pattern of a class pattern."""
+        al = self.aliases(fn, p)
+        out = []
+        for n in walk_in_order(fn):
+            if isinstance(n, ast.Attribute) and n.attr == "data" and isinstance(n.value, ast.Name) and n.value.id in al and isinstance(n.ctx, ast.Load):
+                out.append((n, "attr"))
+            elif isinstance(n, ast.Call) and isinstance(n.func, ast.Name) and n.func.id in ("getattr", "vars", "attrgetter") and n.args and isinstance(n.args[0], ast.Name) and n.args[0].id in al:
+                raise AnalysisError(f"{fn.name}: reflective access to the event ({norm(n)}) is not modelled")
+            elif isinstance(n, ast.Match) and isinstance(n.subject, ast.Name) and n.subject.id in al:
+                for case in n.cases:
+                    for pat in self._class_patterns(case.pattern):
+                        subs = [sp for k, sp in zip(pat.kwd_attrs, pat.kwd_patterns) if k == "data"]
+                        if last_attr(pat.cls) == "DataReceived" and len(pat.patterns) >= 2:
+                            subs.append(pat.patterns[1])  # __match_args__ of the dataclass: (connection, data)
+                        for sp in subs:
+                            if isinstance(sp, ast.MatchAs) and sp.pattern is None:
+                                if sp.name is not None:
+                                    out.append((sp, ("capture", sp.name)))
+                            else:
+                                out.append((sp, "pattern"))
+        return out
+
+    @staticmethod
+    def _class_patterns(p):
+        if isinstance(p, ast.MatchClass):
+            yield p
+        elif isinstance(p, ast.MatchAs) and p.pattern is not None:
+            yield from _SegmentFlow._class_patterns(p.pattern)
+        elif isinstance(p, ast.MatchOr):
+            for q in p.patterns:
+                yield from _SegmentFlow._class_patterns(q)
+
+    # -- append-only flow
+    def _feeds_inert(self, node) -> bool:
+        """Is ``node`` part of the value written to an attribute that nothing reads (`self.bytes_seen += len(data)`)?"""
+        st = node
+        while st is not None and not isinstance(st, ast.stmt):
+            st = getattr(st, "_parent", None)
+        ts = st.targets if isinstance(st, ast.Assign) else [st.target] if isinstance(st, (ast.AugAssign, ast.AnnAssign)) else []
+        return bool(ts) and all(attr_chain(t).startswith("self.") and attr_chain(t).count(".") == 1 and attr_chain(t)[5:] in self.prog.inert for t in ts)
+
+    def _name_ok(self, fn, cls, name, seen):
+        key = (id(fn), name)
+        if key in seen:
+            return True
+        seen.add(key)
+        if _stores(fn, name) + (1 if name in params_of(fn) else 0) != 1:
+            return False
+        ok = all(self.flows_into_buffer(n, fn, cls, seen) for n in ast.walk(fn) if isinstance(n, ast.Name) and n.id == name and isinstance(n.ctx, ast.Load))
+        if ok:
+            self.seg_names.setdefault(id(fn), set()).add(name)
+        return ok
+
+    def flows_into_buffer(self, node, fn, cls, seen=None) -> bool:
+        """Does the value of ``node`` (the segment bytes) go nowhere but into `self.buf += ...` (or a logger call)?"""
+        seen = set() if seen is None else seen
+        par = getattr(node, "_parent", None)
+        if isinstance(par, ast.AugAssign) and isinstance(par.op, ast.Add) and attr_chain(par.target) == "self.buf" and par.value is node:
+            return True
+        if _in_log_call(node) or self._feeds_inert(node):
+            return True
+        if isinstance(par, (ast.Assign, ast.AnnAssign)) and par.value is node:
+            ts = par.targets if isinstance(par, ast.Assign) else [par.target]
+            return len(ts) == 1 and isinstance(ts[0], ast.Name) and self._name_ok(fn, cls, ts[0].id, seen)
+        if isinstance(par, ast.keyword):
+            par = getattr(par, "_parent", None)
+        if isinstance(par, ast.Call) and (node in par.args or any(k.value is node for k in par.keywords)):
+            c = self.prog.callee(par, cls)
+            if c is not None and c[1]:
+                q = _bind_arg(par, c[0], node)
+                return q is not None and self._name_ok(c[0], cls, q, seen)
+        return False
+
+
+# ---------------------------------------------------------------------------------------------------------------------
+# the abstract machine of the path rules
+
+
+def _boolish(expr) -> bool:
+    return isinstance(expr, (ast.BoolOp, ast.Compare)) or (isinstance(expr, ast.UnaryOp) and isinstance(expr.op, ast.Not)) or (
+        isinstance(expr, ast.Call) and isinstance(expr.func, ast.Name) and expr.func.id in ("isinstance", "bool"))
+
+
+class _Spec(ASpec):
+    """ASpec + helper resolution with state, boolean temporaries that remember their expression, element-wise tuple assignment."""
+
+    cls = BASE
+
+    def inline(self, call, st, depth):
+        return self._resolver(call, st, self) if self._resolver else None
+
+    # a temporary such as `is_server = isinstance(self, Http1Server)` holds ('sym', expression, frame depth, frozen locals): testing
+    # the temporary later decides (and is recorded) exactly like testing the expression where it was computed
+    def value(self, expr, st, depth):
+        v = ASpec.value(self, expr, st, depth)
+        if v == UNKNOWN and expr is not None and _boolish(expr):
+            frozen = []
+            for n in ast.walk(expr):
+                if isinstance(n, ast.Name) and st.has(f"{depth}:{n.id}"):
+                    frozen.append((f"{depth}:{n.id}", st.get(f"{depth}:{n.id}")))
+            for ch in self.tracked:
+                if st.has(ch):
+                    frozen.append((ch, st.get(ch)))
+            return ("sym", expr, depth, tuple(sorted(set(frozen), key=lambda kv: kv[0])))
+        return v
+
+    def _sym(self, expr, st, depth):
+        if isinstance(expr, ast.Name):
+            v = self.value(expr, st, depth)
+            if isinstance(v, tuple) and v and v[0] == "sym":
+                for k, val in v[3]:
+                    st = st.set(k, val)
+                return v[1], v[2], st
+        return None
+
+    def decide_leaf(self, cond, st, depth):
+        s = self._sym(cond, st, depth)
+        if s is not None:
+            old, self._depth = self._depth, s[1]
+            try:
+                return self.truth(s[0], s[2], s[1])
+            finally:
+                self._depth = old
+        return ASpec.decide_leaf(self, cond, st, depth)
+
+    def cond_event(self, expr, value, st):
+        if isinstance(expr, ast.NamedExpr):
+            expr = expr.target  # `if (x := f()):` was decided on x (already bound), record it as a test of x
+        s = self._sym(expr, st, self._depth)
+        if s is not None:
+            node = s[0]
+            while True:
+                if isinstance(node, ast.UnaryOp) and isinstance(node.op, ast.Not):
+                    node, value = node.operand, not value
+                elif isinstance(node, ast.Call) and isinstance(node.func, ast.Name) and node.func.id == "bool" and len(node.args) == 1 and _boolish(node.args[0]):
+                    node = node.args[0]
+                else:
+                    break
+            old, self._depth = self._depth, s[1]
+            try:
+                return ASpec.cond_event(self, node, value, s[2])
+            finally:
+                self._depth = old
+        return ASpec.cond_event(self, expr, value, st)
+
+    def bind(self, target, value_expr, st, depth, value=None):
+        if isinstance(target, (ast.Tuple, ast.List)) and isinstance(value_expr, (ast.Tuple, ast.List)) and len(target.elts) == len(value_expr.elts) \
+                and not any(isinstance(e, ast.Starred) for e in list(target.elts) + list(value_expr.elts)):
+            vals = [self.value(e, st, depth) for e in value_expr.elts]
+            for t, e, v in zip(target.elts, value_expr.elts, vals):
+                st = self.bind(t, e, st, depth, value=v)
+            return st
+        return ASpec.bind(self, target, value_expr, st, depth, value=value)
+
+
+EVENT_ATOMS = {"DataReceived": "D", "ConnectionClosed": "CL", "HttpEvent": "H"}
+H11_ATOMS = {"Data": "DATA", "EndOfMessage": "EOM"}
+
+
+def _spec(prog, flow, scenario, cls=BASE, unroll=2, tracked=()):
+    all_seg_names = set().union(*flow.seg_names.values()) if flow.seg_names else set()
+
+    def simple(x):
+        return isinstance(x, (ast.Name, ast.Attribute))
+
+    def is_ev(x, st, sp):
+        return isinstance(x, ast.Name) and sp.v(x, st)[0] == "param"
+
+    def is_buf(x, st, sp):
+        return simple(x) and sp.v(x, st) == RBUF
+
+    def is_reader(x, st, sp):
+        return simple(x) and sp.v(x, st) == RREADER
+
     def val(expr, st, sp):
-        if isinstance(expr, ast.Call):
-            m = method_call_on(expr, "self.buf")
-            if m == "maybe_extract_lines":
-                return HEAD
-            if m == "maybe_extract_at_most":
-                a = expr.args
-                if len(a) == 1 and isinstance(a[0], ast.Call) and isinstance(a[0].func, ast.Name) and a[0].func.id == "len" and attr_chain(a[0].args[0]) == "self.buf":
+        if isinstance(expr, ast.Name):
+            if expr.id in all_seg_names and not st.has(f"{sp._depth}:{expr.id}"):
+                fn = enclosing_func(expr)
+                if fn is not None and expr.id in flow.seg_names.get(id(fn), ()):
+                    return SEG  # a `match` capture of the segment bytes (the engine does not bind captures)
+            return None
+        if isinstance(expr, ast.Attribute):
+            if expr.attr == "data" and is_ev(expr.value, st, sp):
+                return SEG
+            return None
+        if isinstance(expr, ast.Call) and not expr.keywords:
+            f = expr.func
+            a = expr.args
+            if isinstance(f, ast.Attribute):
+                if is_buf(f.value, st, sp):
+                    if f.attr == "maybe_extract_lines":
+                        return HEAD
+                    if f.attr == "maybe_extract_at_most":
+                        return BUFV if len(a) == 1 and sp.v(a[0], st) == BUFLEN else ("bufpart",)
+                if f.attr == "lstrip" and sp.v(f.value, st) == BUFV:
                     return BUFV
-                return ("bufpart",)
-            if isinstance(expr.func, ast.Attribute) and expr.func.attr in ("lstrip",) and sp.v(expr.func.value, st) == BUFV:
-                return BUFV
-            if attr_chain(expr.func) == "self.body_reader" or attr_chain(expr.func) == "self.body_reader.read_eof":
-                return ("h11ev",)
+                if f.attr == "read_eof" and is_reader(f.value, st, sp):
+                    return H11
+            if is_reader(f, st, sp):
+                return H11
+            if isinstance(f, ast.Name) and len(a) == 1:
+                if f.id == "len" and is_buf(a[0], st, sp):
+                    return BUFLEN
+                if f.id in ("bytes", "bytearray") and sp.v(a[0], st) == BUFV:
+                    return BUFV
         if isinstance(expr, ast.BoolOp) and isinstance(expr.op, ast.Or) and len(expr.values) == 2 and sp.v(expr.values[0], st) == BUFV \
                 and isinstance(expr.values[1], ast.Constant) and expr.values[1].value == b"":
             return BUFV
         return None
 
+    def vtext(x, st, sp):
+        """Canonical text of an assigned / passed value: what it denotes, not how it is spelled."""
+        v = sp.v(x, st)
+        if v in (BUFV, SEG):
+            return v
+        if isinstance(v, tuple) and len(v) == 2 and v[0] == "r":
+            return v[1]
+        if is_const(v):
+            return repr(v[1])
+        return norm(x)
+
     def evdesc(a, st, sp):
-        if isinstance(a, ast.Name) and a.id == ev:
+        if is_ev(a, st, sp):
             return "event"
         if isinstance(a, ast.Call):
-            return (last_attr(a.func),) + tuple(sp.v(x, st) if sp.v(x, st) == BUFV else norm(x) for x in a.args)
+            args = list(a.args)
+            if last_attr(a.func) == "DataReceived" and a.keywords:  # dataclass fields: (connection, data)
+                kw = {k.arg: k.value for k in a.keywords}
+                for name in ("connection", "data")[len(args):]:
+                    if name in kw:
+                        args.append(kw[name])
+            return (last_attr(a.func),) + tuple(vtext(x, st, sp) for x in args)
         return norm(a)
+
+    def writes(node, st, sp):
+        """[(target expression, value expression)] of an assignment statement, tuple assignments element-wise."""
+        if isinstance(node, ast.Assign):
+            out = []
+            for t in node.targets:
+                if isinstance(t, (ast.Tuple, ast.List)) and isinstance(node.value, (ast.Tuple, ast.List)) and len(t.elts) == len(node.value.elts):
+                    out.extend(zip(t.elts, node.value.elts))
+                else:
+                    out.append((t, node.value))
+            return out
+        if isinstance(node, ast.AnnAssign) and node.value is not None:
+            return [(node.target, node.value)]
+        par = getattr(node, "_parent", None)
+        if isinstance(par, ast.IfExp) and (node is par.body or node is par.orelse):
+            # `self.x = a if c else b`: the engine forks on c and presents the chosen arm
+            asg = getattr(par, "_parent", None)
+            if isinstance(asg, ast.Assign) and asg.value is par and len(asg.targets) == 1:
+                return [(asg.targets[0], node)]
+        return []
+
+    def set_event(t, v, st, sp):
+        ch = attr_chain(t)
+        if not ch.startswith("self.") or ch.count(".") != 1 or ch[5:] in prog.inert or attr_chain(v) == ch:
+            return None  # not an attribute of the connection / nobody reads it / `self.x = self.x`
+        if isinstance(v, ast.BinOp) and isinstance(v.op, (ast.Add, ast.Sub)):  # self.x = self.x + k  ==  self.x += k
+            l, r = v.left, v.right
+            if attr_chain(r) == ch and isinstance(v.op, ast.Add):
+                l, r = r, l
+            if attr_chain(l) == ch and is_const(sp.v(r, st)):
+                return ("aug", ch, type(v.op).__name__, sp.v(r, st))
+        return ("set", ch, vtext(v, st, sp))
 
     def label(node, st, sp):
         out = []
         for n in eval_order(node):
             if isinstance(n, ast.Call):
-                m = method_call_on(n, "self.buf")
-                if m:
-                    out.append(("buf", m))
-                elif attr_chain(n.func) == "self.body_reader" and len(n.args) == 1 and attr_chain(n.args[0]) == "self.buf":
+                f = n.func
+                if isinstance(f, ast.Attribute) and is_buf(f.value, st, sp):
+                    out.append(("buf", f.attr))
+                elif is_reader(f, st, sp) and len(n.args) == 1 and not n.keywords and is_buf(n.args[0], st, sp):
                     out.append(("reader",))
-                elif attr_chain(n.func) == "self.body_reader.read_eof":
+                elif isinstance(f, ast.Attribute) and f.attr == "read_eof" and is_reader(f.value, st, sp):
                     out.append(("reader_eof",))
             elif isinstance(n, ast.Yield):
                 v = n.value
                 if isinstance(v, ast.Call):
+                    if last_attr(v.func) == "Log":
+                        continue  # a log line is not part of the flows / hook sequence / bytes on the wire
                     inner = last_attr(v.args[0].func) if v.args and isinstance(v.args[0], ast.Call) else ""
                     out.append(("yield", last_attr(v.func), inner))
                 else:
@@ -126,82 +594,111 @@ def _spec(ev, scenario, unroll=2, tracked=()):
             elif isinstance(n, ast.YieldFrom) and isinstance(n.value, ast.Call):
                 c = n.value
                 ch = attr_chain(c.func)
-                if ch == "self.state" or (ch.startswith("self.") and ch[5:] in sp.state_targets):
-                    out.append(("dispatch", ch, evdesc(c.args[0], st, sp) if len(c.args) == 1 else "?"))
+                if isinstance(c.func, ast.Name) and isinstance(sp.v(c.func, st), tuple) and sp.v(c.func, st)[0] == "r":
+                    ch = sp.v(c.func, st)[1]  # handler = self.state; yield from handler(event)
+                if ch == "self.state" or (ch.startswith("self.") and ch[5:] in prog.targets):
+                    out.append(("dispatch", ch, evdesc(c.args[0], st, sp) if len(c.args) == 1 and not c.keywords else "?"))
                 elif isinstance(c.func, ast.Attribute) and isinstance(c.func.value, ast.Call) and last_attr(c.func.value.func) == "super":
                     out.append(("super", c.func.attr))
                 elif ch:
                     out.append(("call", ch))
-        if isinstance(node, ast.Assign):
-            for t in node.targets:
-                ch = attr_chain(t)
-                if ch.startswith("self."):
-                    out.append(("set", ch, norm(node.value)))
-        elif isinstance(node, ast.AugAssign):
+        for t, v in writes(node, st, sp):
+            e = set_event(t, v, st, sp)
+            if e is not None:
+                out.append(e)
+        if isinstance(node, ast.AugAssign):
             ch = attr_chain(node.target)
-            if ch.startswith("self."):
-                out.append(("aug", ch, type(node.op).__name__, sp.v(node.value, st) if sp.v(node.value, st)[0] == "c" else norm(node.value)))
-        elif isinstance(node, ast.AnnAssign) and node.value is not None and attr_chain(node.target).startswith("self."):
-            out.append(("set", attr_chain(node.target), norm(node.value)))
+            if ch.startswith("self.") and ch[5:] not in prog.inert:
+                v = sp.v(node.value, st)
+                out.append(("aug", ch, type(node.op).__name__, v if (is_const(v) or v == SEG) else norm(node.value)))
         return out
 
     def atom(expr, st, sp):
-        io = isinstance_of(expr)
+        io = isinstance_names(expr)
         if io:
             subj, names = io
-            if isinstance(subj, ast.Name) and subj.id == ev and len(names) == 1:
-                return ({"DataReceived": "D", "ConnectionClosed": "CL", "HttpEvent": "H"}.get(names[0], "isa:" + names[0]), True)
-            if isinstance(subj, ast.Name) and subj.id == "self" and names == ["Http1Server"]:
-                return ("SRV", True)
-            if sp.v(subj, st) == ("h11ev",) and len(names) == 1:
-                return ({"Data": "DATA", "EndOfMessage": "EOM"}.get(names[0], "h11:" + names[0]), True)
-        for chain, name in (("self.buf", "BUF"), ("self.request_done", "RQ"), ("self.response_done", "RS")):
-            if name in ("RQ", "RS") and chain in sp.tracked:
+            table = None
+            if is_ev(subj, st, sp):
+                table = {n: EVENT_ATOMS.get(n, "isa:" + n) for n in names}
+            elif isinstance(subj, ast.Name) and subj.id == "self" and set(names) <= {"Http1Server", "Http1Client"}:
+                if len(set(names)) == 2:
+                    return ("@T", True)
+                return ("SRV", names[0] == "Http1Server")
+            elif isinstance(subj, ast.Name) and sp.v(subj, st) == H11:
+                table = {n: H11_ATOMS.get(n, "h11:" + n) for n in names}
+            if table:
+                atoms = sorted(set(table.values()))
+                if len(atoms) == 1:
+                    return (atoms[0], True)
+                known = [sp.scenario.get(a) for a in atoms]  # isinstance(x, (A, B)) = A or B
+                if any(k is True for k in known):
+                    return ("@T", True)
+                if all(k is False for k in known):
+                    return ("@T", False)
+                return ("|".join(atoms), True)
+        for chain, name in (("self.request_done", "RQ"), ("self.response_done", "RS")):
+            if chain in sp.tracked:
                 continue
-            p = truthiness_atom(expr, chain)
+            p = truthiness_of(expr, lambda x, chain=chain: attr_chain(x) == chain)
             if p is not None:
                 return (name, p)
-        # locals holding the extracted head / the h11 event
-        if isinstance(expr, ast.Name):
-            v = sp.v(expr, st)
-            if v == HEAD:
-                return ("HEAD", True)
-            if v == BUFV:
-                return ("BUFBYTES", True)
+        for want, name, flip in ((RBUF, "BUF", False), (HEAD, "HEAD", False), (BUFV, "BUFBYTES", False), (H11, "NONE", True)):
+            p = truthiness_of(expr, lambda x, want=want: simple(x) and sp.v(x, st) == want)
+            if p is not None:
+                return (name, (not p) if flip else p)
         cp = compare_pair(expr, (ast.Is, ast.IsNot, ast.Eq, ast.NotEq))
         if cp:
             l, r, op = cp
             pos = isinstance(op, (ast.Is, ast.Eq))
-            if isinstance(r, ast.Constant) and r.value is None and isinstance(l, ast.Name):
-                v = sp.v(l, st)
-                if v == HEAD:
-                    return ("HEAD", not pos)
-                if v == ("h11ev",):
-                    return ("NONE", pos)
-            chains = {attr_chain(l), attr_chain(r)}
-            if chains == {"self.state", "self.passthrough"}:
+            vals = {sp.v(l, st), sp.v(r, st)} if simple(l) and simple(r) else set()
+            if vals == {R("self.state"), R("self.passthrough")}:
                 return ("PT", pos)
-            if chains == {ev + ".stream_id", "self.stream_id"}:
-                return ("SID", pos)
+            for a, b in ((l, r), (r, l)):
+                if isinstance(a, ast.Attribute) and a.attr == "stream_id" and is_ev(a.value, st, sp) and simple(b) and sp.v(b, st) == R("self.stream_id"):
+                    return ("SID", pos)
         return None
 
-    def raises(stmt, st, sp):
+    def raises(stmt, st, sp, _depth=0):
         out = []
         for n in ast.walk(stmt):
             if isinstance(n, ast.Call):
-                ch = attr_chain(n.func)
-                if ch in ("self.body_reader", "self.body_reader.read_eof"):
+                f = n.func
+                if is_reader(f, st, sp) or (isinstance(f, ast.Attribute) and f.attr == "read_eof" and is_reader(f.value, st, sp)):
                     out.append("ProtocolError")
+                    continue
+                ch = attr_chain(f)
                 if ch.startswith("http1.") and ("read_" in ch or "expected_http_body_size" in ch):
                     out.append("ValueError")
+                    continue
+                fn = resolver(n, st, sp) if _depth < 3 else None
+                if fn is not None:  # what an inlined helper may raise reaches the caller's handlers too
+                    for s2 in fn.body:
+                        out.extend(raises(s2, st, sp, _depth + 1))
         return out
 
-    sp = ASpec(label=label, atom=atom, scenario=scenario, val=val, raises=raises, unroll=unroll, tracked=tracked)
+    def resolver(call, st, sp):
+        c = prog.callee(call, sp.cls)
+        if c is None:
+            return None
+        fn, is_method = c
+        if is_method:
+            return fn
+        # module helper: of interest only when it is handed the buffer, the body reader or the event
+        for a in list(call.args) + [k.value for k in call.keywords]:
+            if is_buf(a, st, sp) or is_reader(a, st, sp) or is_ev(a, st, sp):
+                return fn
+        return None
+
+    sc = dict(scenario)
+    sc["@T"] = True
+    sp = _Spec(label=label, atom=atom, scenario=sc, val=val, raises=raises, resolver=resolver, unroll=unroll, tracked=tracked, max_depth=4)
+    sp.cls = cls
     sp.exc_parents = {"ProtocolError": "Exception", "RemoteProtocolError": "ProtocolError", "LocalProtocolError": "ProtocolError"}
     return sp
 
 
 EFFECTS = ("yield", "set", "aug", "dispatch", "call", "super", "buf", "reader", "reader_eof")
+SEG_APPEND = ("aug", "self.buf", "Add", SEG)
 
 
 def check(ctx):
@@ -213,52 +710,66 @@ def check(ctx):
     m = ctx.model
     targets = _state_targets(ctx)
     ctx.require({"read_headers", "read_body", "wait", "passthrough"} <= targets, f"state functions of Http1Connection changed: {sorted(targets)}")
+    prog = _Program(ctx, targets)
+    flow = _SegmentFlow(ctx, prog)
+    if prog.inert:
+        ctx.note("attributes written but never read (outside the alphabet): " + ", ".join(sorted(prog.inert)))
 
-    def spec(ev, scenario, **kw):
-        sp = _spec(ev, scenario, **kw)
-        sp.state_targets = targets
-        return sp
+    def spec(scenario, **kw):
+        return _spec(prog, flow, scenario, **kw)
 
-    # ---------------- R02.1 who-may-read
-    reads = 0
+    def run(fn, sp, ev=None, bindings=None, init_env=None):
+        b = dict(bindings or {})
+        if ev is not None:
+            b[ev] = ("param", ev)
+        traces, eng = run_block(fn.body, sp, b, init_env, depth_aware=True)
+        ctx.paths += len(traces)
+        return traces
+
+    # ---------------- R02.1 who-may-read (dataflow of the segment bytes)
+    roots = []
     for cls in CLASSES:
         for st in m.cls(F, cls).body:
-            if not isinstance(st, ast.FunctionDef) or not (st.name in targets or st.name == "_handle_event"):
+            if isinstance(st, ast.FunctionDef) and (st.name in targets or st.name == "_handle_event") and params_of(st):
+                ctx.func(F, f"{cls}.{st.name}")
+                kind = "handle" if st.name == "_handle_event" else "pass" if st.name == "passthrough" else "state"
+                roots.append((st, cls, params_of(st)[0], kind))
+    n_append = n_relay = 0
+    for fn, cls, p, kinds in flow.closure(roots).values():
+        q = getattr(fn, "_qual", fn.name)
+        for node, how in flow.reads(fn, p):
+            if how == "attr" and _in_log_call(node):
                 continue
-            ps = params_of(st)
-            if not ps:
-                continue
-            ev = ps[0]
-            q = f"{cls}.{st.name}"
-            ctx.func(F, q)
-            for n in walk_in_order(st):
-                if isinstance(n, ast.Attribute) and n.attr == "data" and isinstance(n.value, ast.Name) and n.value.id == ev:
-                    reads += 1
-                    par = getattr(n, "_parent", None)
-                    if st.name == "_handle_event":
-                        ok = isinstance(par, ast.AugAssign) and isinstance(par.op, ast.Add) and attr_chain(par.target) == "self.buf" and par.value is n
-                        why = "segment bytes are used for something other than `self.buf += event.data`"
-                    else:
-                        ok = st.name == "passthrough"
-                        why = "a state function reads the bytes of the current segment instead of parsing from self.buf - the outcome depends on how the stream was cut"
-                    ctx.check(ok, "R02.1", (F, q, n), f"{ev}.data read in {st.name}", why, desc=f"{q}: {norm(par) if par is not None else ''}")
-                elif isinstance(n, ast.Call) and isinstance(n.func, ast.Name) and n.func.id in ("getattr", "vars") and n.args and isinstance(n.args[0], ast.Name) and n.args[0].id == ev:
-                    raise AnalysisError(f"{q}: reflective access to the event ({norm(n)}) is not modelled")
-    ctx.require(reads >= 2, "expected the two known reads of event.data (_handle_event, passthrough)")
+            par = getattr(node, "_parent", None)
+            shown = f"{p}.data" if how == "attr" else norm(node)
+            if "state" in kinds:
+                ok = False
+                why = "a state function reads the bytes of the current segment instead of parsing from self.buf - the outcome depends on how the stream was cut"
+            elif kinds == {"pass"}:
+                ok = True
+                why = ""
+                n_relay += 1
+            else:
+                if how == "attr":
+                    ok = flow.flows_into_buffer(node, fn, cls)
+                elif how == "pattern":
+                    ok = False
+                else:
+                    ok = flow._name_ok(fn, cls, how[1], set())
+                why = "segment bytes are used for something other than `self.buf += event.data`"
+                n_append += ok
+            ctx.check(ok, "R02.1", (F, q, node), f"{shown} read in {fn.name}", why, desc=f"{q}: {norm(par) if isinstance(par, (ast.stmt, ast.expr)) else shown}")
+    ctx.require(ctx.findings or (n_append >= 1 and n_relay >= 1), "expected the two known reads of event.data (_handle_event appends, passthrough relays)")
     he = ctx.func(F, "Http1Connection._handle_event")
     ev = params_of(he)[0]
     w = (F, "Http1Connection._handle_event", he)
     for PT in (False, True):
-        sc = {"H": False, "D": True, "CL": False, "PT": PT}
-        traces, _ = run_block(he.body, spec(ev, sc), {ev: ("param", ev)})
-        ctx.paths += len(traces)
+        traces = run(he, spec({"H": False, "D": True, "CL": False, "PT": PT}), ev)
         ctx.require(traces, "Http1Connection._handle_event: no path")
         for tr, how, _ in traces:
-            toks = proj(tr, ("aug", "dispatch", "set", "buf"))
-            if PT:
-                want_ok = toks in ((("dispatch", "self.state", "event"),), (("aug", "self.buf", "Add", f"{ev}.data"), ("dispatch", "self.state", "event")))
-            else:
-                want_ok = toks == (("aug", "self.buf", "Add", f"{ev}.data"), ("dispatch", "self.state", "event"))
+            toks = tuple(t for t in proj(tr, ("aug", "dispatch", "set", "buf")) if t[0] in ("dispatch", "buf") or t[1] in ("self.buf", "self.state"))
+            run_state = ("dispatch", "self.state", "event")
+            want_ok = toks == (SEG_APPEND, run_state) or (PT and toks == (run_state,))
             ctx.check(want_ok and how == "return", "R02.1", w, f"DataReceived, passthrough={PT}",
                       f"a received segment must be appended to self.buf (once) before the state function is run with the event; trace: {show(toks)}",
                       desc=f"_handle_event DataReceived passthrough={PT}: {show(toks)}")
@@ -269,8 +780,7 @@ def check(ctx):
         fn = ctx.func(F, f"{cls}.read_headers")
         ev = params_of(fn)[0]
         w = (F, f"{cls}.read_headers", fn)
-        traces, _ = run_block(fn.body, spec(ev, {"D": True, "CL": False}), {ev: ("param", ev)})
-        ctx.paths += len(traces)
+        traces = run(fn, spec({"D": True, "CL": False}, cls=cls), ev)
         n_incomplete = n_parsed = 0
         prob = {}
         for tr, how, _ in traces:
@@ -306,8 +816,7 @@ def check(ctx):
     rb = ctx.func(F, "Http1Connection.read_body")
     ev = params_of(rb)[0]
     w = (F, "Http1Connection.read_body", rb)
-    traces, _ = run_block(rb.body, spec(ev, {"D": True, "CL": False}), {ev: ("param", ev)})
-    ctx.paths += len(traces)
+    traces = run(rb, spec({"D": True, "CL": False}), ev)
     n_ret = 0
     bad = None
     for tr, how, _ in traces:
@@ -334,8 +843,7 @@ def check(ctx):
     # ---------------- R02.3 wait / mark_done / make_pipe
     wt = ctx.func(F, "Http1Connection.wait")
     ev = params_of(wt)[0]
-    traces, _ = run_block(wt.body, spec(ev, {"D": True, "CL": False}), {ev: ("param", ev)})
-    ctx.paths += len(traces)
+    traces = run(wt, spec({"D": True, "CL": False}), ev)
     ctx.require(traces, "Http1Connection.wait: no path")
     bad = [proj(tr, EFFECTS) for tr, how, _ in traces if proj(tr, EFFECTS) or how != "return"]
     ctx.check(not bad, "R02.3", (F, "Http1Connection.wait", wt), "wait(DataReceived)",
@@ -347,8 +855,7 @@ def check(ctx):
     kw = [a.arg for a in md.args.kwonlyargs] + [a.arg for a in md.args.args[1:]]
     ctx.require(set(kw) == {"request", "response"}, "Http1Connection.mark_done signature changed")
     tracked = ("self.request_done", "self.response_done")
-    traces, _ = run_block(md.body, spec("_", {}, tracked=tracked), {"request": C(False), "response": C(True)}, {"self.request_done": C(True), "self.response_done": C(False)})
-    ctx.paths += len(traces)
+    traces = run(md, spec({}, tracked=tracked), None, {"request": C(False), "response": C(True)}, {"self.request_done": C(True), "self.response_done": C(False)})
     n_keep = 0
     prob = {}
     for tr, how, s in traces:
@@ -377,7 +884,7 @@ def check(ctx):
         bufc = [t[2] for t in tr if t[0] == "cond" and t[1] == "BUF"]
         if disp:
             d = disp[0]
-            if len(disp) != 1 or d[1] not in ("self.state", "self.read_headers") or not (isinstance(d[2], tuple) and d[2][0] == "DataReceived" and d[2][1] == "self.conn"):
+            if len(disp) != 1 or d[1] not in ("self.state", "self.read_headers") or not (isinstance(d[2], tuple) and len(d[2]) >= 2 and d[2][0] == "DataReceived" and d[2][1] == "self.conn"):
                 prob.setdefault("re-dispatch", (f"buffered bytes must be re-dispatched once as DataReceived(self.conn, ...) to read_headers (saw {disp})", eff))
         elif not bufc or bufc[-1] is not False:
             prob.setdefault("re-dispatch", ("bytes of the next (pipelined) message that are already in self.buf are not re-dispatched after the current message "
@@ -390,8 +897,7 @@ def check(ctx):
 
     mp = ctx.func(F, "Http1Connection.make_pipe")
     wmp = (F, "Http1Connection.make_pipe", mp)
-    traces, _ = run_block(mp.body, spec("_", {"BUF": True, "BUFBYTES": True}))
-    ctx.paths += len(traces)
+    traces = run(mp, spec({"BUF": True, "BUFBYTES": True}))
     ctx.require(traces, "Http1Connection.make_pipe: no path")
     bad = None
     for tr, how, _ in traces:
@@ -410,8 +916,7 @@ def check(ctx):
     # ---------------- R02.4 server answers the current stream only / waits
     sd = ctx.func(F, "Http1Server.send")
     ev = params_of(sd)[0]
-    traces, _ = run_block(sd.body, spec(ev, {}), {ev: ("param", ev)})
-    ctx.paths += len(traces)
+    traces = run(sd, spec({}, cls="Http1Server"), ev)
     n_send = 0
     bad = None
     for tr, how, _ in traces:
@@ -431,8 +936,7 @@ def check(ctx):
     wsm = (F, "Http1Server.mark_done", smd)
     for RQ in (True, False):
         for RS in (True, False):
-            traces, _ = run_block(smd.body, spec("_", {"RQ": RQ, "RS": RS}))
-            ctx.paths += len(traces)
+            traces = run(smd, spec({"RQ": RQ, "RS": RS, "SRV": True}, cls="Http1Server"))
             ctx.cells += 1
             ctx.require(traces, "Http1Server.mark_done: no path")
             for tr, how, _ in traces:
